@@ -184,8 +184,10 @@ package proto
 //@   requires pr != nil && pa_ok(pr.nodes, pr.indices, pr.indexOffset) && pa_bs(pr.blockSlots, pr.indices)
 //@   assigns pr.nodes, pr.updatedConnections
 //@   ensures inv: pa_ok(pr.nodes, pr.indices, pr.indexOffset) && pa_same(old(pr.nodes), pr.nodes)
-//@   ensures same: anchor == root ==> !unknown && inSubtree
-//@   ensures unknown_roots: anchor != root && (!has(pr.blockSlots, anchor) || !has(pr.blockSlots, root)) ==> unknown && !inSubtree
+// a root is in its own subtree - if it is a root the array knows; roots that were never inserted (or were pruned) are reported as
+// unknown "rather than guessing" (the property's words), also when both arguments are that same root
+//@   ensures same: anchor == root && has(pr.blockSlots, anchor) ==> !unknown && inSubtree
+//@   ensures unknown_roots: !has(pr.blockSlots, anchor) || !has(pr.blockSlots, root) ==> unknown && !inSubtree
 //@   ensures known_roots: old(pr.updatedConnections) && has(pr.blockSlots, anchor) && has(pr.blockSlots, root) ==> !unknown
 
 // pa_anc(a, l): node a is l or is reached from l by following transition parents (the tree that was inserted)
@@ -247,8 +249,13 @@ package proto
 //@   assigns pr.nodes, pr.updatedConnections
 //@   ensures inv: pa_ok(pr.nodes, pr.indices, pr.indexOffset) && pa_same(old(pr.nodes), pr.nodes)
 //@   ensures unknown: !has(pr.indices, anchor) ==> err != nil
+// every node that is returned is a block node of the array that matches every filter that was given (both, when both are)
+//@   ensures filtered_canon: err == nil ==> (forall j :: {canon[j]} 0 <= j && j < len(canon) ==> has(pr.indices, canon[j]) && (let k := pr.indices[canon[j]] - pr.indexOffset in 0 <= k && k < len(pr.nodes) && pr.nodes[k].Ref == canon[j] && pr.nodes[k].Ref.Root != pr.nodes[k].ParentRoot && (parentRoot != nil ==> pr.nodes[k].ParentRoot == *parentRoot) && (slot != nil ==> pr.nodes[k].Ref.Slot == *slot)))
+//@   ensures filtered_noncanon: err == nil ==> (forall j :: {nonCanon[j]} 0 <= j && j < len(nonCanon) ==> has(pr.indices, nonCanon[j]) && (let k := pr.indices[nonCanon[j]] - pr.indexOffset in 0 <= k && k < len(pr.nodes) && pr.nodes[k].Ref == nonCanon[j] && pr.nodes[k].Ref.Root != pr.nodes[k].ParentRoot && (parentRoot != nil ==> pr.nodes[k].ParentRoot == *parentRoot) && (slot != nil ==> pr.nodes[k].Ref.Slot == *slot)))
 //@   loop 1
 //@     invariant 0 <= i && i <= len(pr.nodes)
+//@     invariant (forall j :: {canon[j]} 0 <= j && j < len(canon) ==> has(pr.indices, canon[j]) && (let k := pr.indices[canon[j]] - pr.indexOffset in 0 <= k && k < i && pr.nodes[k].Ref == canon[j] && pr.nodes[k].Ref.Root != pr.nodes[k].ParentRoot && (parentRoot != nil ==> pr.nodes[k].ParentRoot == *parentRoot) && (slot != nil ==> pr.nodes[k].Ref.Slot == *slot)))
+//@     invariant (forall j :: {nonCanon[j]} 0 <= j && j < len(nonCanon) ==> has(pr.indices, nonCanon[j]) && (let k := pr.indices[nonCanon[j]] - pr.indexOffset in 0 <= k && k < i && pr.nodes[k].Ref == nonCanon[j] && pr.nodes[k].Ref.Root != pr.nodes[k].ParentRoot && (parentRoot != nil ==> pr.nodes[k].ParentRoot == *parentRoot) && (slot != nil ==> pr.nodes[k].Ref.Slot == *slot)))
 //@     invariant pa_ok(pr.nodes, pr.indices, pr.indexOffset) && pa_same(old(pr.nodes), pr.nodes)
 //@     decreases len(pr.nodes) - i
 
